@@ -23,9 +23,9 @@ HANDLERS = "[tal.TALFileHandler, file.FileHandler, dir.DirHandler]"
 def snapshot_diff(s0, s1, explicit):
     """what an expansion left behind in the caller's context (None when nothing)"""
     diffs = []
-    for k in ("locals", "localStack", "repeatStack", "repeatMap"):
-        if s0[k] != s1[k]:
-            diffs.append({"field": k, "before": s0[k], "after": s1[k]})
+    for k in ("locals", "localStack", "repeatStack", "repeatMap", "other"):
+        if s0.get(k) != s1.get(k):
+            diffs.append({"field": k, "before": s0.get(k), "after": s1.get(k)})
     g0, g1 = s0["globals"], s1["globals"]
     for k in sorted(set(g1) - set(g0)):
         if k not in explicit:
